@@ -3,6 +3,7 @@
 package leaderx
 
 import (
+	time2 "github.com/oxia-db/oxia/common/time"
 	"context"
 	"fmt"
 	"io"
@@ -159,10 +160,20 @@ type hookWalFactory struct {
 	onAppendAsync   func(e *proto.LogEntry)
 	onSyncEnter     func()
 	onSyncExit      func()
+	// when set, WALs are built with this clock and no background trimming (wal.NewVerifWal); trimming rounds are
+	// run explicitly with wal.VerifTrimOnce
+	verifOpts  *wal.FactoryOptions
+	verifClock time2.Clock
 }
 
 func (f *hookWalFactory) NewWal(ns string, shard int64, p wal.CommitOffsetProvider) (wal.Wal, error) {
-	w, err := f.Factory.NewWal(ns, shard, p)
+	var w wal.Wal
+	var err error
+	if f.verifOpts != nil {
+		w, err = wal.NewVerifWal(ns, shard, f.verifOpts, p, f.verifClock, 24*time.Hour)
+	} else {
+		w, err = f.Factory.NewWal(ns, shard, p)
+	}
 	if err != nil {
 		return nil, err
 	}
@@ -238,6 +249,9 @@ func (nullRpc) Truncate(string, *proto.TruncateRequest) (*proto.TruncateResponse
 }
 
 type node struct {
+	// walClock != nil: the WAL uses this clock and walRetention, and trims only when told to
+	walClock     time2.Clock
+	walRetention time.Duration
 	dir     string
 	walF    *hookWalFactory
 	kvF     *hookKVFactory
@@ -255,8 +269,12 @@ func newNode(dir string, segSize int32) (*node, error) {
 }
 
 func (n *node) open() error {
-	n.walF = &hookWalFactory{Factory: wal.NewWalFactory(&wal.FactoryOptions{BaseWalDir: filepath.Join(n.dir, "wal"), Retention: time.Hour,
-		SegmentSize: n.segSize, SyncData: true})}
+	wopts := &wal.FactoryOptions{BaseWalDir: filepath.Join(n.dir, "wal"), Retention: time.Hour, SegmentSize: n.segSize, SyncData: true}
+	n.walF = &hookWalFactory{Factory: wal.NewWalFactory(wopts)}
+	if n.walClock != nil {
+		wopts.Retention = n.walRetention
+		n.walF.verifOpts, n.walF.verifClock = wopts, n.walClock
+	}
 	f, err := kv.NewPebbleKVFactory(&kv.FactoryOptions{DataDir: filepath.Join(n.dir, "db"), CacheSizeMB: 1})
 	if err != nil {
 		return err
